@@ -6,12 +6,18 @@
 //! `pid`: findings of that property's family are violations, findings of the other families are counted as
 //! `cross:<PID>:<clause>` labels. Everything asserted is success / failure and exact-rational arithmetic on raw account
 //! bytes; no error code is asserted (the converse of C04 is triggered by the risk engine's rejection code, as in c04.rs).
+//!
+//! The two permissionless harvest instructions (`kamino_harvest_reward` through the fake FARMS program of `venue_farms.rs`,
+//! `drift_harvest_reward` through the fake DRIFT's `withdraw(reduce_only)`) run as op `Harvest` (see `op_harvest`):
+//! C08 - hostile destinations / substitutions never commit and a committed harvest pays nobody but the global fee
+//! wallet's canonical ATA; C03 - it takes nothing from any bank vault, venue vault or user and leaves a Drift bank's own
+//! spot position alone; C02 / C03 frame through `after_commit`.
 use crate::common::*;
 use crate::model::*;
 use crate::num::*;
 use crate::svm::{err_code, Vm};
 use crate::world::*;
-use crate::{venue_drift as vd, venue_kamino as vk, venue_solend as vs};
+use crate::{venue_drift as vd, venue_farms as vf, venue_kamino as vk, venue_solend as vs};
 use marginfi_type_crate::types::{BankConfigOpt, BankOperationalState, ACCOUNT_DISABLED, ACCOUNT_FROZEN, ACCOUNT_IN_RECEIVERSHIP};
 use num_traits::{Signed, ToPrimitive, Zero};
 use proptest::prelude::*;
@@ -146,7 +152,18 @@ pub enum VOp {
     Distress { le: u16, depth: i16 },
     Disable { u: u16 },
     Bankrupt { u: u16, refresh: bool, crash: bool },
+    /// the permissionless `kamino_harvest_reward` / `drift_harvest_reward` on venue bank `vb` (Solend has none).
+    /// signer (who sends it; the instruction itself has no signer account): 0 user 0, 1 user 1, 2 the stranger.
+    /// dest: 0 the fee wallet's canonical ATA of the reward mint, 1 the sender's ATA, 2 the group admin's ATA, 3 a
+    /// non-canonical token account owned by the fee wallet. variant: 0 none, else one hostile substitution (see
+    /// `KAMINO_VARIANTS` / `DRIFT_VARIANTS`). amount: the pending reward (Kamino) / the admin deposit (Drift) the outside
+    /// world puts there first. flavour bits: 1 Kamino reward 1 (the bank's own mint) instead of reward 0 (a new mint), 2
+    /// new reward mint is Token-2022, 4|8|16 reward decimals / Drift position slot, 32 dust waits in the intermediary
+    /// account, 64 (Drift variant 4) only the user stats are substituted
+    Harvest { vb: u16, signer: u8, dest: u8, variant: u8, amount: u64, flavour: u8 },
 }
+pub const KAMINO_VARIANTS: [&str; 7] = ["none", "ata-is-liquidity-vault", "ata-of-other-bank", "bank-mint-as-reward", "vault-authority-of-other-bank", "bank-substituted", "fee-state-copy"];
+pub const DRIFT_VARIANTS: [&str; 8] = ["none", "own-market", "same-mint-market", "position-in-slot-0-1", "user-of-other-bank", "intermediary-not-ata", "vault-authority-of-other-bank", "fee-state-copy"];
 impl VOp {
     pub fn name(&self) -> &'static str {
         match self {
@@ -172,6 +189,7 @@ impl VOp {
             VOp::Distress { .. } => "distress",
             VOp::Disable { .. } => "disable",
             VOp::Bankrupt { .. } => "bankrupt",
+            VOp::Harvest { .. } => "harvest",
         }
     }
 }
@@ -309,6 +327,10 @@ pub fn op_strategy(fam: &'static str, level: u8) -> BoxedStrategy<VOp> {
     ));
     v.push((w(1, &["c16"], 7), i().prop_map(|u| VOp::Disable { u }).boxed()));
     v.push((w(1, &["c09", "c16"], 7), (i(), refresh(), prop::bool::weighted(0.7)).prop_map(|(u, refresh, crash)| VOp::Bankrupt { u, refresh, crash }).boxed()));
+    // harvest: (dest, variant) mostly one hostile element at a time; the legitimate form is the positive control
+    let shape = prop_oneof![9 => Just((0u8, 0u8)), 5 => (1u8..=3).prop_map(|d| (d, 0u8)), 7 => (1u8..=7).prop_map(|x| (0u8, x)), 1 => (1u8..=3, 1u8..=7)];
+    let pending = prop_oneof![1 => Just(0u64), 1 => Just(1u64), 3 => 1u64..1000, 6 => 1000u64..10_000_000, 6 => 10_000_000u64..1_000_000_000_000, 1 => 1_000_000_000_000u64..(1u64 << 50)];
+    v.push((w(3, &["c08", "c03"], 4), (i(), 0u8..3, shape, pending, any::<u8>()).prop_map(|(vb, signer, (dest, variant), amount, flavour)| VOp::Harvest { vb, signer, dest, variant, amount, flavour }).boxed()));
     let v: Vec<(u32, BoxedStrategy<VOp>)> = v.into_iter().filter(|x| x.0 > 0).collect();
     proptest::strategy::Union::new_weighted(v).boxed()
 }
@@ -390,6 +412,8 @@ pub struct Stats {
     pub samples: Vec<Value>,
     pub built: bool,
     pub witnesses: Vec<String>,
+    /// committed harvest transactions (reported separately so that the evidence always shows some)
+    pub harvest_samples: Vec<Value>,
 }
 impl Stats {
     fn label(&mut self, l: &str) {
@@ -1815,6 +1839,7 @@ impl Runner {
             VOp::Distress { le, depth } => self.op_distress(*le, *depth, st),
             VOp::Disable { u } => self.op_disable(*u, st),
             VOp::Bankrupt { u, refresh, crash } => self.op_bankrupt(*u, *refresh, *crash, st),
+            VOp::Harvest { vb, signer, dest, variant, amount, flavour } => self.op_harvest(*vb, *signer, *dest, *variant, *amount, *flavour, st),
         }
         // world manipulations (accrue, price, clock) do not move shares; keep the snapshot's venue backing current
         self.step += 1;
@@ -2178,6 +2203,376 @@ impl Runner {
 }
 
 // ------------------------------------------------------------------------------------------
+// the two permissionless harvest instructions
+// ------------------------------------------------------------------------------------------
+/// one prepared harvest transaction
+struct HarvestPlan {
+    ix: Instruction,
+    /// name of the hostile variant ("none" = no substitution)
+    vname: &'static str,
+    /// the statement demands that this form is refused (a destination other than the fee wallet's canonical ATA, or a
+    /// substituted account that belongs to another bank / wallet / market)
+    must_refuse: bool,
+    /// something is there to be harvested
+    pending: bool,
+    /// the venue's reward source(s): the only token accounts that may lose tokens (besides dust waiting in the intermediary)
+    sources: Vec<Pubkey>,
+    detail: String,
+}
+
+fn is_token_account(a: &crate::svm::Acct) -> bool {
+    (a.owner == spl_token::ID && a.data.len() == 165) || (a.owner == spl_token_2022::ID && (a.data.len() == 165 || (a.data.len() > 165 && a.data[165] == 2)))
+}
+
+impl Runner {
+    fn harvest_sender(&self, signer: u8) -> (Pubkey, &'static str) {
+        match signer % 3 {
+            1 => (self.w.users[1].auth, "user 1"),
+            2 => (self.w.roles.stranger, "a stranger"),
+            _ => (self.w.users[0].auth, "user 0"),
+        }
+    }
+    /// a bank other than `bi`, preferably of the same venue kind, else any other venue bank, else bank 0
+    fn other_bank(&self, bi: usize) -> usize {
+        let same = self.venues.iter().copied().find(|b| *b != bi && self.kind[*b] == self.kind[bi]);
+        same.or_else(|| self.venues.iter().copied().find(|b| *b != bi)).unwrap_or(0)
+    }
+    /// hostile destination `dest` (1..3) for `mint`
+    fn harvest_dest(&mut self, dest: u8, sender: Pubkey, mint: &Pubkey, bi: usize) -> Pubkey {
+        match dest {
+            1 => vf::ensure_ata(&mut self.w.vm, &sender, mint),
+            2 => {
+                let admin = self.w.roles.admin;
+                vf::ensure_ata(&mut self.w.vm, &admin, mint)
+            }
+            _ => {
+                // owned by the fee wallet, but not at the ATA address
+                let k = kp("harv_feewallet_ta", bi as u64);
+                let a = vf::token_acct_of(&self.w.vm, mint, self.w.fee_wallet, 0);
+                self.w.vm.set(k, a);
+                k
+            }
+        }
+    }
+    /// a byte-for-byte copy of the global fee state at another address whose fee wallet is `wallet` (doctored, counted)
+    fn fee_state_copy(&mut self, wallet: Pubkey, st: &mut Stats) -> Pubkey {
+        let k = kp("harv_fee_state_copy", 0);
+        let mut a = self.w.vm.get(&self.w.fee_state).expect("fee state").clone();
+        a.data[8..40].copy_from_slice(k.as_ref());
+        a.data[8 + 64..8 + 96].copy_from_slice(wallet.as_ref());
+        self.w.vm.set(k, a);
+        st.label("doctored:harvest-fee-state-copy");
+        k
+    }
+    fn add_tokens(&mut self, k: &Pubkey, n: u64) {
+        let have = self.w.tok(k);
+        self.w.vm.modify(k, |a| a.data[64..72].copy_from_slice(&have.saturating_add(n).to_le_bytes()));
+    }
+
+    fn plan_kamino(&mut self, bi: usize, sender: Pubkey, dest: u8, variant: u8, amount: u64, flavour: u8, st: &mut Stats) -> HarvestPlan {
+        let variant = (variant % KAMINO_VARIANTS.len() as u8) as usize;
+        let new_dec = [6u8, 9, 0, 8][((flavour >> 2) & 3) as usize];
+        let farm = vf::setup_farm(&mut self.w, bi, new_dec, flavour & 2 != 0, 1u64 << 40);
+        // reward 0 pays a new mint, reward 1 the bank's own mint
+        let ridx = if variant == 3 { 0 } else { (flavour & 1) as usize };
+        vf::set_pending(&mut self.w.vm, &farm, ridx, amount);
+        st.label("doctored:farm-pending-reward");
+        if flavour & 32 != 0 {
+            let k = farm.rewards[ridx].user_reward_ata;
+            self.add_tokens(&k, 1 + amount % 997);
+            st.label("doctored:harvest-dust-in-intermediary");
+        }
+        let b = self.w.banks[bi].clone();
+        let ob = self.w.banks[self.other_bank(bi)].clone();
+        let mut k = vf::legit_keys(&self.w, &farm, ridx);
+        let mut must_refuse = variant != 0;
+        match variant {
+            1 => {
+                // the bank's own liquidity vault (owned by the same vault authority) as the account the venue pays into.
+                // With the bank's own mint as the reward this is consistent for the venue AND for marginfi (the account is
+                // unchecked): not a substitution the statement forbids, only its EFFECT is judged (the vault is pre-funded
+                // so that a sweep would show); with the new reward mint the mints disagree and it must be refused.
+                k.user_reward_ata = b.lv;
+                self.add_tokens(&b.lv, 1_000 + amount / 2);
+                st.label("doctored:harvest-prefund-liquidity-vault");
+                must_refuse = ridx == 0;
+            }
+            2 => k.user_reward_ata = vf::ensure_ata(&mut self.w.vm, &ob.lv_auth, &farm.rewards[ridx].mint),
+            3 => {
+                // reward 0 (the new mint) is harvested, but marginfi is told the reward mint is the bank's own
+                k.reward_mint = b.mint;
+                k.token_program = b.token_program;
+                k.user_reward_ata = b.lv;
+                k.destination_token_account = farm.rewards[1].fee_ata;
+                self.add_tokens(&b.lv, 1_000 + amount / 2);
+                st.label("doctored:harvest-prefund-liquidity-vault");
+            }
+            4 => k.liquidity_vault_authority = ob.lv_auth,
+            5 => {
+                k.bank = ob.key;
+                k.liquidity_vault_authority = ob.lv_auth;
+            }
+            6 => {
+                k.fee_state = self.fee_state_copy(sender, st);
+                k.destination_token_account = vf::ensure_ata(&mut self.w.vm, &sender, &k.reward_mint);
+            }
+            _ => {}
+        }
+        if dest != 0 {
+            k.destination_token_account = self.harvest_dest(dest, sender, &k.reward_mint.clone(), bi);
+            must_refuse = true;
+        }
+        HarvestPlan {
+            ix: vf::ix_harvest(&k),
+            vname: KAMINO_VARIANTS[variant],
+            must_refuse,
+            pending: amount > 0,
+            sources: farm.rewards.iter().map(|r| r.rewards_vault).collect(),
+            detail: format!("reward #{ridx} ({} mint, {} decimals), pending {amount}", if ridx == 1 { "the bank's own" } else { "a new" }, farm.rewards[ridx].decimals),
+        }
+    }
+
+    fn plan_drift(&mut self, bi: usize, sender: Pubkey, dest: u8, variant: u8, amount: u64, flavour: u8, st: &mut Stats) -> HarvestPlan {
+        let variant = (variant % DRIFT_VARIANTS.len() as u8) as usize;
+        let n = bi as u64;
+        let b = self.w.banks[bi].clone();
+        let v = vd::venue(&self.w, bi);
+        let ob_i = self.other_bank(bi);
+        let ob = self.w.banks[ob_i].clone();
+        let ci = vd::CUM_INTEREST_ONE + flavour as u128 * 39_062_501;
+        let base = 50 + 3 * bi as u16;
+        let mut slot = 2 + ((flavour >> 2) % 6) as usize;
+        // the market that is harvested
+        let m = match variant {
+            1 => vd::HarvestMarket { market_index: v.market_index, spot_market: v.spot_market, vault: v.vault, mint: b.mint, token_program: b.token_program, decimals: b.decimals },
+            2 => vd::add_reward_market(&mut self.w, base + 1, b.mint, ci),
+            3 if v.market_index != 0 => {
+                // DRIFT keeps slot 0 for the quote market 0: an admin deposit of the quote asset lands there
+                let qm = kp("harv_quote_mint", 0);
+                if self.w.vm.get(&qm).is_none() {
+                    self.w.vm.set(qm, spl_mint_acct(6));
+                }
+                slot = 0;
+                vd::add_reward_market(&mut self.w, 0, qm, ci)
+            }
+            _ => {
+                let rm = kp("harv_mint", n);
+                if self.w.vm.get(&rm).is_none() {
+                    let dec = [6u8, 9, 5, 8][((flavour >> 2) & 3) as usize];
+                    self.w.vm.set(rm, if flavour & 2 != 0 { t22_mint_acct(dec, None) } else { spl_mint_acct(dec) });
+                }
+                if variant == 3 {
+                    slot = 1; // the bank's own market is the quote market (slot 0): slot 1 is the first free one
+                }
+                vd::add_reward_market(&mut self.w, base, rm, ci)
+            }
+        };
+        // the outside world: DRIFT's admin deposits `amount` tokens of that market for the bank's DRIFT user
+        let mut scaled = 0u64;
+        if variant != 1 && amount > 0 {
+            match vd::admin_deposit(&mut self.w.vm, &v.user, &m, slot, amount) {
+                Ok(d) => {
+                    scaled = d;
+                    st.label(&format!("doctored:drift-admin-deposit:slot{slot}"));
+                }
+                Err(_) => st.label("skip:drift-admin-deposit:slot-in-use"),
+            }
+        }
+        let mut k = vd::harvest_keys(&self.w, bi, &m);
+        let lv_auth = b.lv_auth;
+        let fee_wallet = self.w.fee_wallet;
+        let inter = vf::ensure_ata(&mut self.w.vm, &lv_auth, &m.mint);
+        vf::ensure_ata(&mut self.w.vm, &fee_wallet, &m.mint);
+        if flavour & 32 != 0 {
+            self.add_tokens(&inter, 1 + amount % 997);
+            st.label("doctored:harvest-dust-in-intermediary");
+        }
+        match variant {
+            4 => {
+                // the DRIFT user / user stats of another DRIFT bank; without one, copies of the bank's own at other addresses
+                let (u2, s2) = if self.kind[ob_i] == Some(0) && ob_i != bi {
+                    let o = vd::venue(&self.w, ob_i);
+                    (o.user, o.user_stats)
+                } else {
+                    let (u2, s2) = (kp("harv_user_copy", n), kp("harv_user_stats_copy", n));
+                    let a = self.w.vm.get(&v.user).expect("drift user").clone();
+                    self.w.vm.set(u2, a);
+                    let a = self.w.vm.get(&v.user_stats).expect("drift user stats").clone();
+                    self.w.vm.set(s2, a);
+                    st.label("doctored:harvest-drift-user-copy");
+                    (u2, s2)
+                };
+                if flavour & 64 == 0 {
+                    k.integration_acc_2 = u2;
+                }
+                k.integration_acc_3 = s2;
+            }
+            5 => {
+                let t = kp("harv_intermediary", n);
+                let a = vf::token_acct_of(&self.w.vm, &m.mint, lv_auth, 0);
+                self.w.vm.set(t, a);
+                k.intermediary_token_account = t;
+            }
+            6 => k.liquidity_vault_authority = ob.lv_auth,
+            7 => {
+                k.fee_state = self.fee_state_copy(sender, st);
+                k.destination_token_account = vf::ensure_ata(&mut self.w.vm, &sender, &m.mint);
+            }
+            _ => {}
+        }
+        if dest != 0 {
+            k.destination_token_account = self.harvest_dest(dest, sender, &m.mint, bi);
+        }
+        HarvestPlan {
+            ix: vd::ix_harvest(&k),
+            vname: DRIFT_VARIANTS[variant],
+            must_refuse: variant != 0 || dest != 0,
+            pending: scaled > 0,
+            sources: if m.vault != v.vault { vec![m.vault] } else { vec![] },
+            detail: format!("market {} ({} decimals{}), admin deposit of {amount} tokens = {scaled} scaled units in slot {slot}", m.market_index, m.decimals, if m.mint == b.mint { ", the bank's own mint" } else { "" }),
+        }
+    }
+
+    /// `kamino_harvest_reward` / `drift_harvest_reward`. The set-up (farm / reward market, pending reward / admin deposit,
+    /// token accounts) is the outside world acting and is written into the store right before the attempt; if the
+    /// transaction does not commit the whole world is put back as it was, so that a refused attempt leaves no admin
+    /// deposit behind (two or more active DRIFT deposits would make every later `drift_withdraw` demand reward accounts).
+    fn op_harvest(&mut self, vb: u16, signer: u8, dest: u8, variant: u8, amount: u64, flavour: u8, st: &mut Stats) {
+        let mut bi = self.venues[idx(vb, self.venues.len())];
+        if self.kind[bi] == Some(2) {
+            let cands: Vec<usize> = self.venues.iter().copied().filter(|b| self.kind[*b] != Some(2)).collect();
+            if cands.is_empty() || vb % 4 == 0 {
+                st.label("skip:harvest:solend-has-none");
+                return;
+            }
+            bi = cands[idx(vb / 4, cands.len())];
+        }
+        let kn = self.kind_name(bi);
+        let dest = dest % 4;
+        let (sender, sender_name) = self.harvest_sender(signer);
+        let saved = self.w.clone();
+        let plan = if self.kind[bi] == Some(1) { self.plan_kamino(bi, sender, dest, variant, amount, flavour, st) } else { self.plan_drift(bi, sender, dest, variant, amount, flavour, st) };
+        let legit = plan.vname == "none" && dest == 0;
+        let what = format!("{kn}_harvest_reward on bank #{bi} sent by {sender_name} [{}; destination: {}; substitution: {}]", plan.detail, ["the fee wallet's ATA", "the sender's ATA", "the group admin's ATA", "a non-canonical account of the fee wallet"][dest as usize], plan.vname);
+        let pre = self.w.vm.accts.clone();
+        let own0 = if self.kind[bi] == Some(0) { self.backing(bi) } else { 0 };
+        let gated = self.state[bi] != 1 || self.pause_in_force();
+        let (ok, _) = self.exec(&[plan.ix.clone()]);
+        let res = if ok { "accepted" } else { "refused" };
+        if legit {
+            if plan.pending {
+                // the positive control
+                st.label(&format!("{}:harvest:{kn}", if ok { "ok" } else { "fail" }));
+            } else {
+                st.label(&format!("harvest:{kn}:nothing-pending:{res}"));
+            }
+            st.label(&format!("harvest:sender{}:{res}", signer % 3));
+            if gated && ok {
+                st.label("harvest:committed-while-bank-or-protocol-gated");
+            }
+        } else {
+            if plan.vname != "none" {
+                st.label(&format!("harvest:{kn}:{}:{res}", plan.vname));
+            }
+            if dest != 0 {
+                st.label(&format!("harvest:{kn}:dest{dest}:{res}"));
+            }
+        }
+        // ---- (b) substitutions must not commit
+        if !legit {
+            st.eval("c08");
+            if ok && plan.must_refuse {
+                let which = if plan.vname != "none" { plan.vname.to_string() } else { format!("dest{dest}") };
+                self.find("c08", &format!("harvest:accepted-substitution:{which}:{kn}"), format!("{what} was accepted"));
+            } else if !ok && plan.pending {
+                st.witness("c08:harvest-substitution-refused");
+            }
+        }
+        if !ok {
+            self.w = saved;
+            return;
+        }
+        // ---- (a) where did tokens move? Every token account of the store is compared.
+        st.eval("c08");
+        st.eval("c03");
+        let b = self.w.banks[bi].clone();
+        let mut depositors: Vec<Pubkey> = vec![];
+        for (i, x) in self.w.banks.iter().enumerate() {
+            depositors.extend([x.lv, x.iv, x.fv]);
+            if self.kind[i].is_some() {
+                depositors.push(self.venue_vault(i));
+            }
+        }
+        for u in &self.w.users {
+            depositors.extend(u.tokens.iter().copied());
+        }
+        depositors.extend(self.stranger_tok.iter().copied());
+        depositors.extend(self.admin_tok.iter().copied());
+        let mut deltas: Vec<(Pubkey, Pubkey, Pubkey, i128)> = vec![];
+        for (k, a1) in self.w.vm.accts.iter() {
+            let a0 = pre.get(k);
+            if a0.map(|x| std::sync::Arc::ptr_eq(x, a1)).unwrap_or(false) || !is_token_account(a1) {
+                continue;
+            }
+            let n0 = a0.filter(|x| is_token_account(x)).map(|x| token_amount(&x.data)).unwrap_or(0);
+            let d = token_amount(&a1.data) as i128 - n0 as i128;
+            if d != 0 {
+                deltas.push((*k, Pubkey::new_from_array(a1.data[..32].try_into().unwrap()), a1.owner, d));
+            }
+        }
+        for (k, a0) in pre.iter() {
+            if !self.w.vm.accts.contains_key(k) && is_token_account(a0) && token_amount(&a0.data) > 0 {
+                deltas.push((*k, Pubkey::new_from_array(a0.data[..32].try_into().unwrap()), a0.owner, -(token_amount(&a0.data) as i128)));
+            }
+        }
+        let mut fee_gain: i128 = 0;
+        for (k, mint, prog, d) in &deltas {
+            let fee_ata = ata(&self.w.fee_wallet, mint, prog);
+            let inter = ata(&b.lv_auth, mint, prog);
+            if *d > 0 {
+                if *k == fee_ata {
+                    fee_gain += *d;
+                } else if *k == inter {
+                    st.label("harvest:tokens-left-in-the-intermediary");
+                } else {
+                    self.find("c08", &format!("harvest:paid-elsewhere:{kn}"), format!("{what}: token account {k} (mint {mint}) gained {d} tokens; it is neither the global fee wallet's canonical ATA of that mint ({fee_ata}) nor the vault authority's own ATA"));
+                }
+            } else if plan.sources.contains(k) {
+                // the venue's reward source paid
+            } else if *k == inter {
+                st.label("harvest:dust-in-the-intermediary-swept");
+            } else if depositors.contains(k) {
+                let role = if *k == b.lv {
+                    "the bank's liquidity vault"
+                } else if *k == self.venue_vault(bi) {
+                    "the venue's vault of the bank's own market / reserve"
+                } else {
+                    "a bank vault / venue vault / user token account"
+                };
+                self.find("c03", &format!("harvest:took-from-depositors:{kn}"), format!("{what}: {role} {k} lost {} tokens", -d));
+            } else {
+                self.find("c08", &format!("harvest:took-from-unrelated:{kn}"), format!("{what}: token account {k} (mint {mint}), which is not a reward source of the venue, lost {} tokens", -d));
+            }
+        }
+        if legit && fee_gain > 0 {
+            st.witness("c08:harvest-paid");
+        }
+        // ---- (d) Drift: the bank's own position is not touched
+        if self.kind[bi] == Some(0) {
+            let own1 = self.backing(bi);
+            if own1 != own0 {
+                self.find("c03", "harvest:touched-own-market:drift", format!("{what}: the scaled balance of the bank's own spot position moved from {own0} to {own1}"));
+            }
+        }
+        // ---- (c) ledger bit-exact, venue backing never decreases
+        self.after_commit(&what, st);
+        if st.harvest_samples.len() < 2 {
+            st.harvest_samples.push(json!({"harvest": {"kind": kn, "bank": bi, "sender": sender_name, "destination": dest, "substitution": plan.vname, "set_up": plan.detail, "fee_wallet_ata_gained": fee_gain.to_string(), "token_accounts_changed": deltas.len()}}));
+        }
+    }
+}
+
+// ------------------------------------------------------------------------------------------
 // one case
 // ------------------------------------------------------------------------------------------
 /// Run one case. Err((signature, message)) = first finding of family `fam`; findings of other families become
@@ -2219,12 +2614,12 @@ pub fn run_case(case: &VCase, fam: &str, st: &mut Stats) -> Result<(), (String, 
 }
 
 pub fn rule(pid: &str) -> String {
-    let common = "venue campaign (stateful proptest): generated worlds of 1-2 ordinary banks (bank 0 borrowable, funded by a lender) and 1-3 (one tenth / for C16 three eighths: 9-10) venue banks of generated kinds Kamino / Solend / Drift (decimals 6/8/9 - Drift mints of >= 10 decimals are excluded by construction, known finding -, SPL / plain Token-2022, Pyth with EMA != spot or Switchboard, confidence 0-3 %, initial venue rate 1.0-1.6 with ragged fixed-point digits, reserve sizes 1e7-1e15, generated weights and deposit limits incl. tight ones), 3 users + liquidator + lender with distinct roles; sequences of 8-40 generated ops (venue deposit / withdraw with absolute, relative and boundary amounts, with or without the venue refresh instructions, signed by authority / other user / stranger / unsigned authority key / group admin; borrow / repay on bank 0 sized by the reference borrowing power; ordinary deposits; venue interest accrual; waiting (clock and slot advance, price feeds refreshed, venue accounts NOT); venue refresh; price and confidence moves; bank paused / reduce-only / operational; killed (doctored, counted); protocol pause with / without propagation; limits; classic liquidation; receivership brackets [refresh.., start, venue withdraw, repay, end]; freeze; distress (price solved for a maintenance health slightly below / above zero); disabling by transfer / bankruptcy) executed through marginfi::entry and the fake venue programs; three quarters of the cases with the venues converting as the mocks crates do (Kamino / Solend I80F48 rates; the Drift fake then calls drift_mocks' own get_scaled_balance_* helpers, i.e. it behaves exactly as marginfi's handlers predict), one quarter with exact floor arithmetic / Drift's own formulas. ";
+    let common = "venue campaign (stateful proptest): generated worlds of 1-2 ordinary banks (bank 0 borrowable, funded by a lender) and 1-3 (one tenth / for C16 three eighths: 9-10) venue banks of generated kinds Kamino / Solend / Drift (decimals mostly 6 / 8 / 9, one mint in eight with unusual decimals 0-5, 7, 10-12 - for a Drift bank more than 9 decimals means one booked unit is worth 10^(d-9) native units -, SPL / plain Token-2022, Pyth with EMA != spot or Switchboard, confidence 0-3 %, initial venue rate 1.0-1.6 with ragged fixed-point digits, in a third of the worlds lowered again by a write-off of 0-100 % of the venue's borrowed liquidity (a reserve that socialised a loss: possibly BELOW par), reserve sizes 1e7-1e15, generated weights and deposit limits incl. tight ones), 3 users + liquidator + lender with distinct roles; sequences of 8-40 generated ops (venue deposit / withdraw with absolute, relative and boundary amounts, with or without the venue refresh instructions, signed by authority / other user / stranger / unsigned authority key / group admin; borrow / repay on bank 0 sized by the reference borrowing power; ordinary deposits; venue interest accrual; venue losses (the exchange rate falls, possibly below par); waiting (clock and slot advance, price feeds refreshed, venue accounts NOT); venue refresh; price and confidence moves; bank paused / reduce-only / operational; killed (doctored, counted); protocol pause with / without propagation; limits; classic liquidation; receivership brackets [refresh.., start, venue withdraw, repay, end]; freeze; distress (price solved for a maintenance health slightly below / above zero); disabling by transfer / bankruptcy; substitution probes on copies of the world (15 % of the worlds, 60 % for C08, have a second group - creating one is permissionless - with one venue bank of every kind in use); the two permissionless harvest instructions kamino_harvest_reward / drift_harvest_reward - Solend has none -: a fake Kamino farm whose user state of the bank's vault authority gets a generated pending reward of a new mint (SPL / Token-2022, 0-9 decimals) or of the bank's own mint, resp. a generated Drift `admin deposit` of a further spot market written into slot 2-7 of the bank's Drift user - both the outside world acting, doctored and counted -, sent by user 0 / user 1 / a stranger (the instructions have no signer account), paid to the fee wallet's canonical ATA or - hostile - the sender's ATA / the group admin's ATA / a non-canonical account of the fee wallet, optionally with ONE hostile substitution (Kamino: user_reward_ata = the bank's pre-funded liquidity vault / another bank's reward ATA, the bank's mint passed as reward mint, vault authority / bank of another bank, a copy of the fee state naming the sender as fee wallet; Drift: harvest of the bank's own market / of another market of the bank's mint / of a market whose position sits in slot 0-1, Drift user or user stats of another bank, a non-ATA intermediary, vault authority of another bank, fee-state copy), optionally with dust waiting in the intermediary account; an attempt that does not commit is rolled back together with its set-up) executed through marginfi::entry and the fake venue programs; three quarters of the cases with the venues converting as the mocks crates do (Kamino / Solend I80F48 rates; the Drift fake then calls drift_mocks' own get_scaled_balance_* helpers, i.e. it behaves exactly as marginfi's handlers predict), one quarter with exact floor arithmetic / Drift's own formulas. ";
     let own = match pid {
         "C02" => "C02 family: after every committed transaction, for every venue bank d(total_asset_shares) == sum over all accounts d(asset_shares) bit-exactly (a closure may leave the total above by < 0.0001 units), the total never below the sum, no liability shares in venue banks. Non-trivial = a case in which two accounts held the same venue bank and a venue withdraw succeeded.",
-        "C03" => "C03 family: successful venue deposit: source token account moved by exactly `amount`, shares credited x EXACT venue rate <= amount (allowance: the derived bound of the mocks' I80F48 rate, ~1e-12 relative, + 4 ulp); successful venue withdraw (also `all`): tokens received <= shares removed x exact rate (same allowance; integer tokens, so `all` pays <= floor(value)); after every committed transaction (venue position - booked shares) never decreases. Non-trivial = a successful venue deposit or withdraw of a positive amount at a venue rate != 1.",
+        "C03" => "C03 family: successful venue deposit: source token account moved by exactly `amount`, shares credited x EXACT venue rate <= amount (allowance: the derived bound of the mocks' I80F48 rate, ~1e-12 relative, + 4 ulp); successful venue withdraw (also `all`): tokens received <= shares removed x exact rate (same allowance; integer tokens, so `all` pays <= floor(value)); after every committed transaction - including every committed harvest - (venue position - booked shares) never decreases; a committed harvest leaves the balance of the bank's liquidity vault, of the venue's vault of the bank's own market / reserve, of every other bank / venue vault and of every user token account where it was (harvest:took-from-depositors) and does not move the scaled balance of a Drift bank's own spot position (harvest:touched-own-market). Non-trivial = a successful venue deposit or withdraw of a positive amount at a venue rate != 1.",
         "C04" => "C04 family: after every successful borrow and every successful venue withdraw outside a bracket the reference initial health (model.rs: feed view x exact venue rate with the derived slack, a venue not refreshed in the current slot / second worth nothing) is not definitely negative and defined; a venue withdraw / borrow refused with the risk engine's code is replayed inside a flash-loan bracket and the state it would have produced must not be healthy beyond the enclosure. Non-trivial = a success with debt and the converse evaluated in the same campaign case, or a success at the reference frontier.",
-        "C08" => "C08 family: a venue deposit / withdraw signed by another user, a stranger, the group admin (account not frozen) or carrying the authority's key without the signature bit must fail; on a frozen account the authority must fail (the admin may act: counted). Non-trivial = a case with a refused unauthorised attempt on a funded position or an admin action on a frozen account.",
+        "C08" => "C08 family: a venue deposit / withdraw signed by another user, a stranger, the group admin (account not frozen) or carrying the authority's key without the signature bit must fail; on a frozen account the authority must fail (the admin may act: counted). Substitution probes (on copies; positive control: the well-formed deposit / withdraw commits): the same instruction with every account slot that marginfi binds to the bank - bank, liquidity vault, vault authority, mint, integration accounts 1-3 - replaced, one at a time and all at once, by the corresponding account of another bank of the same venue kind (the foreign group's, another home bank's), and the foreign group's bank with ALL of its own consistent accounts (only group, marginfi account and authority are the caller's): nothing may commit (substitution-accepted). Harvest: a harvest with a destination other than the global fee wallet's canonical ATA of the reward mint, or with a substituted account that belongs to another bank / wallet / market (every hostile form above except `user_reward_ata = the bank's own liquidity vault` with the bank's own mint as reward, which is the same bank's account and is judged by its effect only), must not commit (harvest:accepted-substitution); after every committed harvest all token accounts of the store are compared: the only account that may have gained tokens is the fee wallet's canonical ATA of that mint (tokens left in the vault authority's own ATA are labelled) - else harvest:paid-elsewhere -, the only accounts that may have lost tokens are the venue's reward source (the farm's rewards vaults / the vault of the harvested, foreign Drift market) and dust in the vault authority's ATA - else harvest:took-from-unrelated, or C03's harvest:took-from-depositors; the legitimate form is the positive control (labels ok:/fail:harvest:<kind>). Non-trivial = a case with a refused unauthorised attempt on a funded position, an admin action on a frozen account, a refused substitution, a legitimate harvest that paid the fee wallet, or a refused hostile harvest of a pending reward.",
         "C09" => "C09 family: with a venue position (>= 1 share) whose venue account was not refreshed in the current slot (Kamino / Solend) / second (Drift): start_liquidation (bracket), classic liquidation and bankruptcy must fail; a borrow / venue withdraw that succeeds must be covered with the stale position counted as worthless. Non-trivial = a case in which such an instruction was attempted on a stale venue holder.",
         "C10" => "C10 family: a committed bracket [venue refresh.., start_liquidation, <venue>_withdraw, repay, end_liquidation] signed only by the liquidator => the reference maintenance health at start (after the refresh instructions) was not definitely positive, health at the end not definitely worse and not definitely positive, value seized <= value repaid x (1 + max(5 %, configured max fee)) under both price readings unless assets were worth < $5, receivership flag and receiver cleared, the liquidator received exactly the tokens that left the venue's vault. Non-trivial = a committed bracket.",
         "C14" => "C14 family (operational state tracked from the accepted admin instructions): paused / killed venue bank: no venue deposit, withdraw, classic liquidation or bracket touching it succeeds; reduce-only: deposit refused, a refused withdraw of a debt-free account must also be refused on a copy with the bank operational; protocol pause in force for the group (propagated, not expired): venue deposit / withdraw / borrow / repay refused; after expiry without propagation a refused venue deposit / withdraw must also be refused on a copy whose group never heard of the pause. Non-trivial = a gated refusal was observed.",
@@ -2265,7 +2660,7 @@ pub fn run(ctx: &Ctx, pid: &str, rep: &mut Report) {
     // development aid: generate as for `pid` but report the findings of another family (to chase a `cross:` label)
     let target_s = std::env::var("MFV_VC_TARGET").unwrap_or_else(|_| fam.to_string());
     let target: &str = &target_s;
-    let total: u32 = std::env::var("MFV_VC_CASES").ok().and_then(|s| s.parse().ok()).unwrap_or(ctx.tier.pick(1000, 10_000));
+    let total: u32 = std::env::var("MFV_VC_CASES").ok().and_then(|s| s.parse().ok()).unwrap_or(ctx.tier.pick(2500, 25_000));
     let rule_text = rule(pid);
     // two phases because the Solend fake's math mode is process-wide: all workers run the same mode at the same time
     for (phase, exact, cases) in [(0u64, false, total - total / 4), (1u64, true, total / 4)] {
@@ -2273,6 +2668,7 @@ pub fn run(ctx: &Ctx, pid: &str, rep: &mut Report) {
         let part = par_workers(ctx.threads, |wi| {
             let mut rep = Report::new(&rule_text);
             let strat = case_strategy(fam, exact, level);
+            let (mut n_generic, mut n_harvest) = (0usize, 0usize);
             let outcome = run_prop(ctx.seed_bytes(if phase == 0 { "venuecamp" } else { "venuecamp-exact" }, wi as u64), cases, &strat, |c, counting| {
                 let mut st = Stats::default();
                 let r = run_case(c, target, &mut st);
@@ -2289,10 +2685,18 @@ pub fn run(ctx: &Ctx, pid: &str, rep: &mut Report) {
                         let mut ws: Vec<&String> = st.witnesses.iter().filter(|w| w.starts_with(fam)).collect();
                         ws.sort();
                         rep.nontrivial_case(&json!({"half": "venuecamp", "w": ws, "v": c.venues.iter().map(|v| (v.kind, v.decimals, v.feed.kind)).collect::<Vec<_>>(), "n": c.ops.len(), "x": exact}));
-                        if rep.samples.len() < 2 {
+                        if n_generic < 2 {
                             for s in st.samples.iter().take(2) {
                                 rep.sample(s.clone());
+                                n_generic += 1;
                             }
+                        }
+                    }
+                    // one committed harvest per worker, whatever the family
+                    if n_harvest < 1 {
+                        if let Some(s) = st.harvest_samples.first() {
+                            rep.sample(s.clone());
+                            n_harvest += 1;
                         }
                     }
                 }
